@@ -198,6 +198,7 @@ def run(ctx):
     check_keyed(ctx, coq_ok)
     check_amqp_conversations(ctx)
     ctx.trusted += [
+        "translator vh-translate/idents.go (go/ast: Sprintf keys of the handlers and readers)",
         "gated-reader harness vh-match (one message per read; a side has handled a message when it asks for input again)",
         "modelled, not verified: sync.Map operations linearizable; Sprintf idents injective for the '_'-free address components used (several connections exercised)",
         "HTTP/2, Kafka and AMQP correlation are covered by theorem C09_keyed; their Dissect-level correspondence runs live in the protocol families",
